@@ -1,9 +1,13 @@
 #!/bin/bash
-# usage: seedrun.sh <Sid> <check id>... : apply the seeded patch to /repo, run the quick checks, revert
+# usage: seedrun.sh <Sid> <check id>... : check a seeded change on a private copy of the tree (own worktree, build and evidence directories), so that /repo and
+# /verif/build are never touched and other checks may run at the same time.  Equivalent to: git -C /repo apply <patch>; ./check <id> quick; git -C /repo checkout -- .
 S=$1; shift
-git -C /repo apply /verif/seeded/$S/patch.diff || exit 2
+W=/tmp/seedrun_$S; rm -rf $W; mkdir -p $W
+git -C /repo worktree add -q --detach $W/repo HEAD || exit 2
+git -C $W/repo apply /verif/seeded/$S/patch.diff || { git -C /repo worktree remove --force $W/repo; exit 2; }
+export VERIF_REPO=$W/repo VERIF_BUILD=$W/build VERIF_EVID=$W/evidence
 for c in "$@"; do
   out=$(cd /verif && ./check $c quick 2>&1); rc=$?
   echo "== $S vs $c: exit=$rc, $(echo "$out" | grep -c '^VIOLATION') VIOLATION lines"; echo "$out" | grep -A1 '^VIOLATION' | head -4 | cut -c1-300
 done
-git -C /repo checkout -- . ; git -C /repo status --short | grep -v _build
+git -C /repo worktree remove --force $W/repo; git -C /repo worktree prune; rm -rf $W
